@@ -602,7 +602,10 @@ class XsdAnyElement(XsdWildcard, ParticleMixin,
                 return other.is_overlap(self)
             return False
 
-        if self.not_namespace:
+        if not self.namespace and not self.not_namespace or \
+                not other.namespace and not other.not_namespace:
+            return False  # a wildcard that allows no namespace
+        elif self.not_namespace:
             if other.not_namespace:
                 return True
             elif '##any' in other.namespace:
